@@ -3,7 +3,7 @@
 set -e
 cd "$(dirname "$0")"
 mkdir -p ../.build/driver
-cp model.ml model.mli util.ml json.ml seqops.ml streamops.ml editops.ml genops.ml ops.ml main.ml ../.build/driver/
+cp model.ml model.mli util.ml json.ml seqops.ml streamops.ml editops.ml genops.ml xmlops.ml ops.ml main.ml ../.build/driver/
 cd ../.build/driver
 ocamlfind ocamlopt -O3 -unboxed-types 2>/dev/null >/dev/null || true
-ocamlfind ocamlopt -w -a -package str -linkpkg model.mli model.ml util.ml json.ml seqops.ml streamops.ml editops.ml genops.ml ops.ml main.ml -o model_driver
+ocamlfind ocamlopt -w -a -package str -linkpkg model.mli model.ml util.ml json.ml seqops.ml streamops.ml editops.ml genops.ml xmlops.ml ops.ml main.ml -o model_driver
